@@ -1410,6 +1410,67 @@ func TestVerifEnum(t *testing.T) {
 		}
 	}
 
+	// 5b. large markup outside the pre elements --------------------------------------------------
+	{
+		bigSizes := []int{1023, 1024, 2047, 2048, 4095, 4096, 4097, 8192, 16384, 30000}
+		kinds := []struct {
+			name string
+			mk   func(n int) string
+		}{
+			{"comment", func(n int) string { return "<!--" + strings.Repeat("c", n) + "-->" }},
+			{"style-body", func(n int) string { return "<style>" + strings.Repeat("a{} ", n/4) + "</style>" }},
+			{"text-in-div", func(n int) string { return "<div>" + strings.Repeat("t", n) + "</div>" }},
+			{"long-attribute", func(n int) string { return "<div data-x=\"" + strings.Repeat("v", n) + "\"></div>" }},
+			{"many-small-tags", func(n int) string { return strings.Repeat("<b>x</b>", n/8) }},
+		}
+		begin("markup-large", fmt.Sprintf("one piece of markup of %v bytes (below the 32 KiB token limit) of kinds comment / style body / text / tag with a long attribute / many small tags, inserted before the first pre element, between two pre elements and after the last one; payloads of 50, 30000 and 120000 bytes: decoding unchanged", bigSizes))
+		for _, p := range []payload{{50, 2}, {30000, 2}, {120000, 2}} {
+			c := canon(p)
+			if c.spans == nil {
+				continue
+			}
+			normal, _ := outsidePositions(c.doc, c.spans)
+			if len(normal) == 0 {
+				continue
+			}
+			// positions: the last offset before the first pre, one between pre elements (if any), the last one
+			first := normal[0]
+			for _, pos := range normal {
+				if pos <= c.spans[0].open {
+					first = pos
+				}
+			}
+			poss := []int{first, normal[len(normal)-1]}
+			if len(c.spans) > 1 {
+				for _, pos := range normal {
+					if pos >= c.spans[0].close && pos <= c.spans[1].open {
+						poss = append(poss, pos)
+						break
+					}
+				}
+			}
+			for _, k := range kinds {
+				for _, n := range bigSizes {
+					for _, pos := range poss {
+						if !r.Mine() {
+							continue
+						}
+						if r.TimeUp() || h.hung["markup-large"] {
+							break
+						}
+						mk := k.mk(n)
+						doc := insertAt(c.doc, pos, mk)
+						pos, n, k := pos, n, k
+						r.Case(fmt.Sprintf("mkl|%s|%s|%d|%d", p, k.name, n, pos), true)
+						h.expectPayload("markup-large", func() io.Reader { return srcSizes[4].reader(doc) }, 0, c.data, func() interface{} {
+							return map[string]interface{}{"payload": p.String(), "markup_kind": k.name, "markup_bytes": n, "offset": pos}
+						})
+					}
+				}
+			}
+		}
+	}
+
 	// 6. truncation ------------------------------------------------------------------------------
 	begin("truncation", "armor(p) cut at every offset (p of 0, 3, 24, 50 B x 3 contents; 23806 and 47614 B: offsets within 64 B of a tag and every 509th): data or error, no panic; a cut inside the text of a pre element (unterminated pre) must give an error; source reads {4096, 1}")
 	for _, p := range payloads {
